@@ -323,9 +323,15 @@ func (c *Chan[T]) TryRecv() (T, bool, bool) {
 	return r.V, r.Ok, i == 0
 }
 
+// Len is len(c). It is a schedule point: what len() saw may be stale by the
+// time the caller acts on it, and the simulator must be able to put other
+// tasks' steps in between.
 func (c *Chan[T]) Len() int {
 	if c == nil {
 		return 0
+	}
+	if s := cur; s != nil && !s.killing {
+		s.yield(&pending{kind: "chan.len"})
 	}
 	return len(c.core.buf)
 }
